@@ -8,6 +8,61 @@ fn stub_format(_a: std::fmt::Arguments<'_>) -> String {
     String::new()
 }
 
+// HashMap's RandomState::new() reads the OS random source (a foreign call Kani cannot model); the dictionaries map
+// is never touched at the framing level, so any fixed keys do.
+fn fixed_random_state() -> std::hash::RandomState {
+    unsafe { std::mem::transmute::<[u64; 2], std::hash::RandomState>([0, 0]) }
+}
+
+// Cuts: the harness stays at the framing level (the assumption below stops the decoder before the flatbuffer
+// message), so the message / body arms of `decode` are dead code here.  Their heavy callees are replaced by
+// stubs that end the path, which keeps them out of the SAT instance (the Message and Body states are outside
+// this claim).
+fn cut_message(_b: Buffer) -> Result<MessageBuffer, ArrowError> {
+    kani::assume(false);
+    Err(ArrowError::IpcError(String::new()))
+}
+
+fn cut_extend<T: arrow_buffer::ArrowNativeType>(
+    _b: &mut MutableBuffer,
+    _items: &[T],
+) -> Result<(), arrow_buffer::MutableBufferError> {
+    kani::assume(false);
+    Ok(())
+}
+
+fn cut_schema(_fb: crate::Schema) -> Result<arrow_schema::Schema, ArrowError> {
+    kani::assume(false);
+    Err(ArrowError::IpcError(String::new()))
+}
+
+fn cut_dictionary(
+    _buf: &Buffer,
+    _batch: crate::DictionaryBatch,
+    _schema: &arrow_schema::Schema,
+    _d: &mut HashMap<i64, ArrayRef>,
+    _m: &crate::MetadataVersion,
+    _ra: bool,
+    _sv: UnsafeFlag,
+) -> Result<(), ArrowError> {
+    kani::assume(false);
+    Ok(())
+}
+
+fn cut_batch<'a>(
+    _buf: &'a Buffer,
+    _batch: crate::RecordBatch<'a>,
+    _schema: SchemaRef,
+    _d: &'a HashMap<i64, ArrayRef>,
+    _m: &'a crate::MetadataVersion,
+) -> Result<RecordBatchDecoder<'a>, ArrowError>
+where
+    'a: 'a, // makes the lifetime early-bound, matching `impl<'a> RecordBatchDecoder<'a>`
+{
+    kani::assume(false);
+    Err(ArrowError::IpcError(String::new()))
+}
+
 // observable summary of the decoder state once the fed bytes are consumed
 fn summary(d: &StreamDecoder) -> (u8, u32, u8, bool, [u8; 4]) {
     match &d.state {
@@ -29,46 +84,96 @@ fn summary(d: &StreamDecoder) -> (u8, u32, u8, bool, [u8; 4]) {
     }
 }
 
-fn feed(d: &mut StreamDecoder, bytes: &[u8]) -> bool {
-    let mut b = Buffer::from_vec(bytes.to_vec());
+// the chunk is a zero-copy slice of one 8-byte allocation: no allocation of symbolic size
+fn feed(d: &mut StreamDecoder, all: &Buffer, from: usize, to: usize) -> bool {
+    let mut b = all.slice_with_length(from, to - from);
     let r = d.decode(&mut b);
     let ok = matches!(r, Ok(None));
     std::mem::forget(r);
     ok
 }
 
-//@ tier: quick
-//@ timeout: 900
-//@ functions: arrow_ipc::reader::StreamDecoder::{decode (Header state), finish}
-//@ bound: every prefix (0..=8 bytes) of every 8-byte stream head (continuation marker or legacy length word, then the metadata length), fed in one chunk versus two chunks at every split point (empty chunks included): same resulting decoder state (awaiting-header with the same partial word / continuation flag, awaiting-message with the same size, or finished), same outcome of finish(); unwind 10
-//@ assume: the fed bytes end with the length word, so the decoder stops before the flatbuffer message (framing level only)
-//@ stub: alloc::fmt::format -> empty String
-#[kani::proof]
-#[kani::unwind(10)]
-#[kani::stub(alloc::fmt::format, stub_format)]
-fn c14_ipc_header_chunking() {
-    let bytes: [u8; 8] = kani::any();
-    let n: usize = kani::any();
-    let k: usize = kani::any();
-    kani::assume(n <= 8 && k <= n);
-    // keep the decoder inside the framing level: a legacy length word (no continuation marker) must be the
-    // last thing fed, i.e. at most 4 bytes unless the stream starts with the continuation marker
-    let starts_with_marker = bytes[0] == 0xFF && bytes[1] == 0xFF && bytes[2] == 0xFF && bytes[3] == 0xFF;
-    kani::assume(n <= 4 || starts_with_marker);
+// One stream head, one chunking: feed bytes[..n] whole and as bytes[..k] + bytes[k..n]; both decoders must end in the
+// same state.  `n` and `k` are compile-time constants in every instance below: with concrete chunk lengths the
+// decoder's `while !buffer.is_empty()` loop has a concrete trip count and the (dead) message / body arms are
+// never entered symbolically.  (A first version with symbolic n, k timed out inside drop glue of Schema in the
+// dead arms.)
+fn split_case(bytes: &[u8; 8], all: &Buffer, n: usize, k: usize) {
     let mut one = StreamDecoder::new();
-    let ok1 = feed(&mut one, &bytes[..n]);
+    let ok1 = feed(&mut one, all, 0, n);
     let mut two = StreamDecoder::new();
-    let ok2a = feed(&mut two, &bytes[..k]);
-    let ok2b = feed(&mut two, &bytes[k..n]);
+    let ok2a = feed(&mut two, all, 0, k);
+    let ok2b = feed(&mut two, all, k, n);
     assert!(ok1 && ok2a && ok2b, "framing bytes never produce a batch or an error");
     assert!(summary(&one) == summary(&two), "the decoder state does not depend on the chunking");
-    let f1 = one.finish().is_ok();
-    let f2 = two.finish().is_ok();
-    assert!(f1 == f2, "finish() agrees");
-    kani::cover!(n == 8 && k == 2 && starts_with_marker && summary(&one).0 == 1, "marker split across chunks, message size read");
-    kani::cover!(n == 8 && starts_with_marker && summary(&one).0 == 3, "end-of-stream marker");
-    kani::cover!(n == 3 && k == 1, "partial word");
-    kani::cover!(n == 4 && !starts_with_marker && summary(&one).0 == 1, "legacy length prefix");
+    let f1 = one.finish();
+    let f2 = two.finish();
+    assert!(f1.is_ok() == f2.is_ok(), "finish() agrees");
+    if n == 8 {
+        let size = u32::from_le_bytes([bytes[4], bytes[5], bytes[6], bytes[7]]);
+        let s = summary(&one);
+        assert!(if size == 0 { s.0 == 3 } else { s.0 == 1 && s.1 == size }, "length word after the marker is decoded");
+    }
+    std::mem::forget(f1);
+    std::mem::forget(f2);
     std::mem::forget(one);
     std::mem::forget(two);
 }
+
+macro_rules! ipc_chunk_instance {
+    ($name:ident, $marker:expr, $n:expr, [$($k:expr),*]) => {
+        #[kani::proof]
+        #[kani::unwind(6)]
+        #[kani::stub(alloc::fmt::format, stub_format)]
+        #[kani::stub(std::hash::RandomState::new, fixed_random_state)]
+        #[kani::stub(crate::convert::MessageBuffer::try_new, cut_message)]
+        #[kani::stub(crate::convert::try_fb_to_schema, cut_schema)]
+        #[kani::stub(arrow_buffer::MutableBuffer::try_extend_from_slice, cut_extend)]
+        #[kani::stub(crate::reader::read_dictionary_impl, cut_dictionary)]
+        #[kani::stub(crate::reader::RecordBatchDecoder::try_new, cut_batch)]
+        fn $name() {
+            let mut bytes: [u8; 8] = kani::any();
+            if $marker {
+                bytes[0] = 0xFF;
+                bytes[1] = 0xFF;
+                bytes[2] = 0xFF;
+                bytes[3] = 0xFF;
+            }
+            let all = Buffer::from_vec(bytes.to_vec());
+            $( split_case(&bytes, &all, $n, $k); )*
+            kani::cover!(bytes[4] != 0 || $n < 5, "a non-empty message follows");
+            std::mem::forget(all);
+        }
+    };
+}
+
+//@ tier: quick
+//@ timeout: 600
+//@ functions: arrow_ipc::reader::StreamDecoder::{decode (Header state), finish}
+//@ bound: every first word (4 arbitrary bytes: continuation marker, legacy length, or zero), every prefix length n = 0..=4 of it, fed whole versus split at every k = 0..=n (empty chunks included): same decoder state (partial word and continuation flag / message size / finished) and same finish() outcome; unwind 6
+//@ stub: alloc::fmt::format -> empty String; std::hash::RandomState::new -> fixed keys (OS randomness is a foreign call; the dictionaries map is untouched here); MessageBuffer::try_new, try_fb_to_schema, read_dictionary_impl, RecordBatchDecoder::try_new, MutableBuffer::try_extend_from_slice -> assume(false) (message / body states are outside the claim)
+ipc_chunk_instance!(c14_ipc_first_word_chunking_n0_n1_n2, false, 2, [0, 1, 2]);
+//@ tier: quick
+//@ timeout: 600
+//@ functions: arrow_ipc::reader::StreamDecoder::{decode (Header state), finish}
+//@ bound: as c14_ipc_first_word_chunking_n0_n1_n2 for n = 3
+//@ stub: as c14_ipc_first_word_chunking_n0_n1_n2
+ipc_chunk_instance!(c14_ipc_first_word_chunking_n3, false, 3, [0, 1, 2, 3]);
+//@ tier: quick
+//@ timeout: 600
+//@ functions: arrow_ipc::reader::StreamDecoder::{decode (Header state), finish}
+//@ bound: as c14_ipc_first_word_chunking_n0_n1_n2 for n = 4 (the whole first word)
+//@ stub: as c14_ipc_first_word_chunking_n0_n1_n2
+ipc_chunk_instance!(c14_ipc_first_word_chunking_n4, false, 4, [0, 1, 2, 3, 4]);
+//@ tier: quick
+//@ timeout: 600
+//@ functions: arrow_ipc::reader::StreamDecoder::{decode (Header state), finish}
+//@ bound: continuation marker FF FF FF FF followed by 2 arbitrary bytes of the length word (n = 6), split at every k = 0..=6: same decoder state, same finish() outcome; unwind 6
+//@ stub: as c14_ipc_first_word_chunking_n0_n1_n2
+ipc_chunk_instance!(c14_ipc_marker_then_partial_length_n6, true, 6, [0, 1, 2, 3, 4, 5, 6]);
+//@ tier: quick
+//@ timeout: 600
+//@ functions: arrow_ipc::reader::StreamDecoder::{decode (Header state), finish}
+//@ bound: continuation marker FF FF FF FF followed by an arbitrary 4-byte length word (n = 8), split at every k = 0..=8 (the marker itself split at 1, 2, 3; the length split at 5, 6, 7): same decoder state, which is `finished` for length 0 and `awaiting message of that size` otherwise, same finish() outcome; unwind 6
+//@ stub: as c14_ipc_first_word_chunking_n0_n1_n2
+ipc_chunk_instance!(c14_ipc_marker_and_length_n8, true, 8, [0, 1, 2, 3, 4, 5, 6, 7, 8]);
